@@ -24,7 +24,7 @@ from common import cstr, clist, cfloat, copt, cpair, cz
 THEOREMS = ['C15_tokens_of_appended_options', 'C15_keywords_prefix',
             'C15_keywords_later_wins', 'C15_like_chain_text',
             'C15_like_equals_expanded', 'C15_like_imp_refuted',
-            'C15_like_mat_void_refuted']
+            'C15_like_mat_void_refuted', 'C15_like_re_recognises']
 TRUSTED = [
     'hand-written model coq/C15/Model.v (modelled, tied by execution only)',
     'environment of the model, filled per deck from the repository\'s own '
@@ -432,6 +432,8 @@ def points_check(deck, expanded, conv_like, conv_exp, rng):
     '''geomcheck on the LIKE deck; a failure counts only where the explicit
     expansion passes at the same points (otherwise it is not about LIKE).'''
     import geomcheck
+    if deck.get('has_lattice'):
+        return []          # no lattice ground truth in these decks
     by_id = {c['id']: c for c in deck['cells']}
     for cell in deck['cells']:
         r = gen.resolve(by_id, cell['id'])
@@ -574,10 +576,10 @@ def witness_fails():
 def run(res, tier, seed, proofs_ok):
     rng = random.Random(seed)
     quick = tier == 'quick'
-    n_valid = 150 if quick else 2600
-    n_dec = 16 if quick else 250
-    n_edge = 160 if quick else 2400
-    n_points = 40 if quick else 400
+    n_valid = 150 if quick else 1200
+    n_dec = 16 if quick else 120
+    n_edge = 160 if quick else 1200
+    n_points = 40 if quick else 300
     res.rule = (
         'abstract decks: 1-3 explicit level-0 bodies (sphere, box, cylinder, '
         'filled container), 0-2 filler universes (explicit or made of LIKE '
@@ -614,7 +616,7 @@ def run(res, tier, seed, proofs_ok):
     cases, meta = [], []
     split_cases = []
     n_pts_done = 0
-    n_void = 12 if quick else 150
+    n_void = 12 if quick else 80
     for i in range(n_valid + n_dec + n_void):
         decreasing = n_valid <= i < n_valid + n_dec
         voiding = i >= n_valid + n_dec
